@@ -324,6 +324,11 @@ func (a *Application) executeTranslatedNonStreamingRequest(
 	// Parse OpenAI response
 	var openaiResp map[string]interface{}
 	if jerr := json.Unmarshal(recorder.body.Bytes(), &openaiResp); jerr != nil {
+		// A backend error answer need not carry a JSON body (plain text, HTML from an
+		// intermediary); it is still the backend's own 4xx/5xx and keeps its status.
+		if recorder.status >= 400 {
+			return a.handleNonStreamingBackendError(w, recorder, nil, pr, trans)
+		}
 		return fmt.Errorf("failed to parse OpenAI response: %w", jerr)
 	}
 
